@@ -60,6 +60,9 @@ def _worker(args, wall_timeout):
                 results.append(json.loads(line[7:]))
             except Exception:
                 pass
+    hits = sorted({line.split()[1] for line in err.splitlines() if line.startswith('KNOWN-FINDING-HIT ') and len(line.split()) > 1})
+    for r in results:
+        r['known_hits'] = hits
     return results, err[-3000:], rc, time.time() - t0
 
 
@@ -232,6 +235,11 @@ def main(argv=None):
 
     for k, rec in known_hits:
         print('KNOWN-FINDING: property=%s %s [cell %s args %s]' % (prop, k.get('what_fails', ''), rec['cell'], json.dumps(rec['args'])))
+    inline_hits = sorted({h for _, r in results for h in r.get('known_hits', [])})
+    for h in inline_hits:
+        k = next((x for x in known if x.get('id') == h), None)
+        if k is not None and k.get('property') == prop:
+            print('KNOWN-FINDING: property=%s %s' % (prop, k.get('what_fails', h)))
     for path, rec in violations:
         print('VIOLATION property=%s replay=%s' % (prop, path))
         log('  cell', rec['cell'], 'args', rec['args'])
@@ -291,7 +299,7 @@ def main(argv=None):
             'inconclusive': [{'cell': n, 'why': w} for n, w in inconclusive][:60],
             'not_run': not_run[:60],
             'tool_artefacts': [{'cell': n, 'args': ar, 'message': msg} for n, ar, msg in artefacts][:20],
-            'known_findings_seen': [k.get('id') for k, _ in known_hits],
+            'known_findings_seen': sorted(set([k.get('id') for k, _ in known_hits] + inline_hits)),
             'cells': [{'cell': n, 'family': s.get('family'), 'bounds': s.get('bounds'), 'verdict': r.get('status'),
                        'paths': r.get('paths'), 'cpu_s': r.get('cpu_s'), 'solver_queries': r.get('solver_queries'),
                        'solver_s': r.get('solver_s')} for (m, n, s), r in results],
